@@ -2,10 +2,12 @@
 
 Proof: Poly/Props/C15.lean — for ALL handler programs over the primitive effects (get/put/delete/notify/putMerkleVal/
 nativeCall/checkWitness/...), all registries, prior states and signers: failed_tx_no_trace, ok_tx_keeps_all,
-cache_reset_isolates, isolation, block_result_fn, handler_cannot_touch_overlay (model: Poly/Model/Native.lean).
+cache_reset_isolates, isolation, block_result_fn, handler_cannot_touch_overlay, model_fuel_sufficient (model:
+Poly/Model/Native.lean).
 Tie: correspondence stream `atomic` — harness hnative registers a scripted test contract in native.Contracts and runs
 real blocks (mixing succeeding and failing transactions, failures injected at every step, nested calls, the context
-limit) through the real ExecuteBlock/AddBlock on a real ledger; the compiled Lean model (drv_native) executes the same
+limit) through the real ExecuteBlock/AddBlock/SubmitBlock on a real ledger (including the consensus interleaving: a held
+ExecuteResult must survive the execution of other candidate blocks); the compiled Lean model (drv_native) executes the same
 op lines; write set, digest, cross hashes, cross root, events and what every transaction read are compared.
 Search: inside the harness the property is evaluated directly on the real outputs (independent Go reference of the
 writes of the successful transactions, read isolation, events kept, and re-execution of the block without its
